@@ -37,4 +37,17 @@ CHECKS = {
                      "the interrupted operation is re-issued after restart (as the log replay of the real system does)",
                      "windows of 2 keys, 3-4 messages per sender"],
     ),
+    "C11": dict(
+        harness="pkg__secretstore", run="TestVerifC11", level="exploration",
+        technique="exhaustive enumeration: all ordered account pairs of a 6-key alphabet, all operation sequences to depth 4/5 over derive/export/import/reopen on two real stores, complete import-refusal catalogue (every truncation length, foreign key types, swapped/equal/empty blobs)",
+        rule="every element enumerated is executed on real secret stores; distinct = (check kind, case class, outcome)",
+        assumptions=["6 deterministic account keys, 2 multi-member groups, 3 devices per account; keys outside the alphabet are not covered ('thousands of random pairs' would be sampling)"],
+    ),
+    "C05": dict(
+        harness="pkg__secretstore", run="TestVerifC05a", level="exploration",
+        technique="exhaustive enumeration of (sender device, recipient member, group) triples x every (claimed sender, opener, group) combination x every single-bit flip, on the real announcement code",
+        rule="all triples over accounts {A,B,C} x devices {1,2} x groups {account(A), contact(A,B), contact(A,C), G1, G2}; each sealed announcement is tried with every combination of claimed sender device (5), opening device (6) and group (5); announcements taken after k=0..1 (quick) / 0..3 sends; distinct = (which coordinates are right, outcome) classes",
+        assumptions=["part (b) of the property (every device ends up holding every chain key once all metadata entries are exchanged) is decided by the root-package harness when built; this table entry is updated then",
+                     "keys outside the deterministic alphabet are not covered"],
+    ),
 }
